@@ -20,6 +20,7 @@ func init() {
 		ruleW1(c, "C12.Z5")
 		ruleA2(c, "C12.Z6")
 		ruleF4(c, "C12.Z7")
+		ruleF1(c, "C12.Z8")
 	}
 }
 
